@@ -766,6 +766,12 @@ func (s *Scanner) checkUnionInjection(stmt *ast.SetOperation, result *ScanResult
 					nullCount++
 				}
 			}
+			// The parser represents NULL as a literal, not as an identifier
+			if lit, ok := col.(*ast.LiteralValue); ok {
+				if lit.Value == nil || strings.EqualFold(lit.Type, "null") {
+					nullCount++
+				}
+			}
 		}
 
 		// Multiple NULLs in UNION SELECT is suspicious
